@@ -3,28 +3,12 @@
 import json, os
 HERE = os.path.dirname(os.path.dirname(os.path.abspath(__file__)))
 BASELINE_OFF = "cd /repo && GOFLAGS=-mod=mod GOPROXY=off GOSUMDB=off GOTOOLCHAIN=local go test -json -vet=off -count=1 -timeout 25m ./..."
-CLAIMS = {
- 'C01': dict(level='model_checking', design='DESIGN.md 6 C01',
-   text='Bucket.tla (write/read/incr/flush/rotation at critical-section grain, reference map by the documented version arithmetic) is model-checked exhaustively for small constants (all positions of flush and rotation, check_vhash on/off); seeded random and fixed histories are executed on the real HStore built from the working tree and every logged reply is validated by TLC against the reference map (level-1 trace validation).',
-   note='Trusted: TLC, the harness value-id table (byte equality), hooks only park the post-rotation flusher. Values up to a few KB (not body_max); one served bucket per scenario; memcached text path is covered by C11.',
-   technique='TLA+ model checking (TLC) + TLC trace validation of real executions'),
- 'C02': dict(level='model_checking', design='DESIGN.md 6 C02',
-   text='MC_Seq with clean restarts: every subset of tree dump / hint files removed before Open, the post-rotation flusher released at any point or never (shutdown race); Recover(disk) transcribes Bucket.open. Real executions: close/reopen at random positions with index files deleted, replies validated by TLC against the reference map.',
-   note='Merged hint (*.idx.m) subsets only when a merge ran; versions of deleted keys and of tree-only revision changes are adopted from the implementation as the property allows.',
-   technique='TLA+ model checking (TLC) + TLC trace validation of real executions'),
- 'C03': dict(level='model_checking', design='DESIGN.md 6 C03',
-   text='GC (range check, destination choice, in-place rewrite, copy, two-step tree repoint, hint write, source clear, truncate) is part of Bucket.tla at the grain of gc.go; MC_Seq with GC enumerates every accepted (begin,end) over small multi-file histories incl. restarts; on the real store random histories with GC passes (also repeated, followed by writes and restarts with index subsets removed) are executed and all reads validated by TLC against the reference map.',
-   note='merge=off passes only so far (merge-on GC sleeps SecsBeforeDump+1 s per pass and is exercised in the thorough tier only when enabled); GC is requested only when no post-rotation flush is pending (that schedule belongs to C05).',
-   technique='TLA+ model checking (TLC) + TLC trace validation of real executions'),
- 'C17': dict(level='model_checking', design='DESIGN.md 6 C17',
-   text='RangeOf (gcCheckStart/End/Range with the age predicate as input) is part of Bucket.tla; every GC request of the scenarios is compared with it (accepted range or refusal), and the before/after inventory of the data files (sizes, content hashes of the old prefix) is checked against the frame clause: files outside [begin,end] keep their bytes, at most one earlier file grows, nothing at or above the head is touched.',
-   note='The "at most one pass per bucket" clause (two concurrent requests) is checked by the schedule family once built; pretend mode and days>0 arguments are exercised through gcCheckRange only.',
-   technique='TLA+ model checking (TLC) + TLC trace validation of real executions'),
- 'C18': dict(level='model_checking', design='DESIGN.md 6 C18',
-   text='After every GC pass the data files are scanned with an independent record reader (own header parse + stdlib CRC-32); TLC checks that every record surviving in the collected range is the newest record of its key (by the specification\'s record history), exactly once, and that an identical second pass releases nothing. The same invariants are model-checked on Bucket.tla (C18_OnlyCurrent, C18_Once) where TLC rediscovers finding F7.',
-   note='Known finding F7 (superseded tombstone kept when the key is absent from a rebuilt tree and begin > 0) is excused by its predicate only; colliding keys excluded as the property says.',
-   technique='TLA+ model checking (TLC) + TLC trace validation of real executions'),
-}
+import glob, importlib, sys
+sys.path.insert(0, os.path.join(HERE, 'lib'))
+CLAIMS = {}
+for f in sorted(glob.glob(os.path.join(HERE, 'lib', 'fam_*.py'))):
+    mod = importlib.import_module(os.path.basename(f)[:-3])
+    CLAIMS.update(getattr(mod, 'PROPS', {}))
 NOT_YET = {}
 def main():
     allp = [json.loads(l)['id'] for l in open(os.path.join(HERE, 'properties.jsonl'))]
